@@ -1,6 +1,194 @@
-//! C16 — not implemented yet.
+//! C16 — disks, spheres, segments, rays: containment, distance and hit queries are exact.
+//!
+//! Layout: `round.rs` (Disk / Sphere), `segment.rs` (LineSegment2/3), `ray.rs` (Ray::triangle_intersection).
+//! All oracles work on plain arrays in the *oracle domain* `S::O` (`Rat` for `Rat`, `f64` for `f64`/`f32`)
+//! and never call the vek function they judge.
+
 use vkit::*;
 
+/// Scalar domain together with the domain its oracle is evaluated in.
+pub trait Lift: Dom {
+    type O: Dom;
+    fn lift(self) -> Self::O;
+    /// Square root in the oracle domain when it can be given exactly (always for floats, i.e. correctly rounded).
+    fn sqrt_exact(x: Self::O) -> Option<Self::O>;
+}
+impl Lift for Rat {
+    type O = Rat;
+    fn lift(self) -> Rat {
+        self
+    }
+    fn sqrt_exact(x: Rat) -> Option<Rat> {
+        x.exact_sqrt()
+    }
+}
+impl Lift for f64 {
+    type O = f64;
+    fn lift(self) -> f64 {
+        self
+    }
+    fn sqrt_exact(x: f64) -> Option<f64> {
+        Some(x.sqrt())
+    }
+}
+impl Lift for f32 {
+    type O = f64;
+    fn lift(self) -> f64 {
+        self as f64
+    }
+    fn sqrt_exact(x: f64) -> Option<f64> {
+        Some(x.sqrt())
+    }
+}
+
+pub fn lift_v<S: Lift, const N: usize>(a: &[S; N]) -> [S::O; N] {
+    let mut r = [<S::O as num_traits::Zero>::zero(); N];
+    for i in 0..N {
+        r[i] = a[i].lift();
+    }
+    r
+}
+
+/// `got` equals `want`: exactly in the exact domain, within `k * eps(S) * max(1, scale)` for floats
+/// (both already lifted to the oracle domain).
+pub fn near<S: Lift>(cx: &mut Cx, got: S::O, want: S::O, scale: f64, k: f64) -> bool {
+    cx.count();
+    if S::EXACT {
+        got == want
+    } else {
+        let (x, y) = (got.f(), want.f());
+        if x == y {
+            return true;
+        }
+        let tol = k * S::eps() * scale.abs().max(1.0);
+        let d = (x - y).abs();
+        if !d.is_finite() {
+            return false;
+        }
+        cx.note_err(d / tol);
+        d <= tol
+    }
+}
+
+/// `a >= b`: exactly in the exact domain, `a >= b - k*eps(S)*max(1,scale)` for floats.
+pub fn ge_tol<S: Lift>(cx: &mut Cx, a: S::O, b: S::O, scale: f64, k: f64) -> bool {
+    cx.count();
+    if S::EXACT {
+        a >= b
+    } else {
+        let tol = k * S::eps() * scale.abs().max(1.0);
+        let (x, y) = (a.f(), b.f());
+        if !(x.is_finite() && y.is_finite()) {
+            return false;
+        }
+        if y > x {
+            cx.note_err((y - x) / tol);
+        }
+        x >= y - tol
+    }
+}
+
+macro_rules! near {
+    ($cx:expr, $S:ty, $got:expr, $want:expr, $scale:expr, $k:expr, $($arg:tt)*) => {{
+        let g = $got;
+        let w = $want;
+        if !$crate::near::<$S>($cx, g, w, $scale as f64, $k as f64) {
+            return Err(vkit::Fail::Violation(format!("{}: got {:?}, want {:?} (scale {:.3e}, k {})", format!($($arg)*), g, w, $scale as f64, $k as f64)));
+        }
+    }};
+}
+macro_rules! ge_tol {
+    ($cx:expr, $S:ty, $a:expr, $b:expr, $scale:expr, $k:expr, $($arg:tt)*) => {{
+        let a = $a;
+        let b = $b;
+        if !$crate::ge_tol::<$S>($cx, a, b, $scale as f64, $k as f64) {
+            return Err(vkit::Fail::Violation(format!("{}: {:?} < {:?} (scale {:.3e}, k {})", format!($($arg)*), a, b, $scale as f64, $k as f64)));
+        }
+    }};
+}
+
+/// Primitive Pythagorean pairs / triples (components, hypotenuse): every vector has an integer length.
+pub const PYTH2: [([i64; 3], i64); 6] = [([1, 0, 0], 1), ([3, 4, 0], 5), ([5, 12, 0], 13), ([8, 15, 0], 17), ([7, 24, 0], 25), ([20, 21, 0], 29)];
+pub const PYTH3: [([i64; 3], i64); 12] = [
+    ([1, 0, 0], 1),
+    ([3, 4, 0], 5),
+    ([1, 2, 2], 3),
+    ([2, 3, 6], 7),
+    ([1, 4, 8], 9),
+    ([4, 4, 7], 9),
+    ([2, 6, 9], 11),
+    ([6, 6, 7], 11),
+    ([3, 4, 12], 13),
+    ([2, 10, 11], 15),
+    ([5, 12, 0], 13),
+    ([12, 15, 16], 25),
+];
+
+/// A Pythagorean vector of dimension N (2 or 3) with a tape-chosen permutation and signs, and its integer length.
+pub fn pyth<const N: usize>(t: &mut Tape) -> ([i64; N], i64) {
+    let (a, h) = if N == 2 { t.pick(&PYTH2) } else { t.pick(&PYTH3) };
+    let rot = t.below(N);
+    let mut w = [0i64; N];
+    for i in 0..N {
+        w[i] = a[(i + rot) % N];
+    }
+    if t.bool() {
+        w.swap(0, 1);
+    }
+    for i in 0..N {
+        if t.bool() {
+            w[i] = -w[i];
+        }
+    }
+    (w, h)
+}
+
+pub fn isqrt_floor(x: i64) -> i64 {
+    debug_assert!(x >= 0);
+    let mut r = (x as f64).sqrt() as i64;
+    while r * r > x {
+        r -= 1;
+    }
+    while (r + 1) * (r + 1) <= x {
+        r += 1;
+    }
+    r
+}
+
+pub fn sq_dist<O: Dom, const N: usize>(a: &[O; N], b: &[O; N]) -> O {
+    let d = vkit::refmath::subv(a, b);
+    vkit::refmath::dot(&d, &d)
+}
+
+pub fn nonzero_count<S: Dom, const N: usize>(a: &[S; N]) -> usize {
+    a.iter().filter(|x| !x.is_zero()).count()
+}
+
+mod ray;
+mod round;
+mod segment;
+
 pub fn property() -> Property {
-    Property { id: "C16", rule: "", assumptions: &[], checks: Vec::new(), max_discard_frac: 0.2 }
+    let mut checks = Vec::new();
+    round::checks(&mut checks);
+    segment::checks(&mut checks);
+    ray::checks(&mut checks);
+    Property {
+        id: "C16",
+        rule: "cases are byte tapes generated by proptest (uniform bytes, fixed seed) decoded by constructive generators into labelled classes (plus two exhaustive small integer grids); \
+a disk/sphere case is non-trivial when the radius is within one grid step (resp. the chosen delta) of the distance — tangency, just inside, just outside — or the offset has >= 2 non-zero components; \
+a shape case (bounds, measures) when the radius is neither 0 nor 1; a segment case when the segment is not axis-aligned or the foot of the perpendicular is at/next to an end or outside the segment; \
+a ray case when the crossing is on/next to an edge or vertex, the triangle is degenerate, the ray is parallel to the plane, or the direction has >= 2 non-zero components; distinct = distinct consumed tape prefix per check",
+        assumptions: &[
+            "rustc and the proptest runner/shrinker are trusted",
+            "oracles: integer / rational squared-distance comparison (no sqrt), Cramer solve through vkit::refmath::det (Leibniz), clamped-parameter closed form plus a 257-point sampling of the segment; none calls the vek function it judges",
+            "exact rational arithmetic (Rat over i128); irrational sqrt / i128 overflow poison the case, which is discarded and counted; Rat distances are therefore checked on Pythagorean configurations",
+            "f32/f64 containment and collision are decided exactly only on the integer grid |coord| <= 1000: differences, squares and their sum (<= 1.2e7 < 2^24) are exact, IEEE sqrt is correctly rounded and monotone, fl(sqrt(R^2)) = R and fl(sqrt(R^2+1)) > R for every integer R < 4096 (1/(2R+1) > ulp(R)/2), so `sqrt(d2) <= R` equals `d2 <= R^2`",
+            "preconditions: radii >= 0; distinct centres for the collision vector; segments are either exactly degenerate (start == end, for which the code returns start) or have squared length >= 1/64 — vek treats 0 < |end-start|^2 <= T::epsilon() as degenerate, that band is excluded; ray-triangle determinants are exactly 0 or >= 1e-3 in magnitude (vek compares the determinant with T::epsilon(); Rat's epsilon is 2^-52)",
+            "the ray direction need not be normalised for the asserted statement (Some(t) with origin + t*direction the crossing point); a share of the cases uses exactly normalised (Pythagorean) directions",
+            "float tolerances are k * eps(S) * scale with the k and scale stated at each comparison; max observed error/tolerance is recorded in the evidence",
+        ],
+        checks,
+        max_discard_frac: 0.1,
+    }
 }
